@@ -798,7 +798,7 @@ def gen_src(unit_name):
 
 
 # dialect modules of the Rust→Lean translator, in lookup order (tools/<name>.py)
-TRANSLATOR_MODULES = ["rs2lean", "rs2lean_pm"]
+TRANSLATOR_MODULES = ["rs2lean", "rs2lean_pm", "rs2lean_fm"]
 GEN_SRC = {n: gen_src(n) for n in ("SrcKmpLps", "SrcShiftAndMasks", "SrcHorspoolNew", "SrcFenwick", "SrcBitEnc", "SrcBwt", "SrcPrescan")}
 # (genbits) bit-packed containers: SmallInts (C18, C03), RankSelect and WaveletMatrix (C17)
 GEN_SRC.update({n: gen_src(n) for n in ("SrcSmallInts", "SrcRankSelect", "SrcWavelet")})
@@ -806,6 +806,9 @@ GEN_SRC.update({n: gen_src(n) for n in ("SrcSmallInts", "SrcRankSelect", "SrcWav
 # genpm: search loops of the exact matchers (C08) and distance functions (C09)
 GEN_SRC.update({n: gen_src(n) for n in ("SrcShiftAndNext", "SrcKmpNext", "SrcHorspoolNext", "SrcBndmNext", "SrcBomNext")})
 GEN_SRC.update({n: gen_src(n) for n in ("SrcHamming",)})
+
+# genfm: the FM-index chain (C04/C05) — added separately so that concurrent edits of the line above merge trivially
+GEN_SRC.update({n: gen_src(n) for n in ("SrcOcc", "SrcLess", "SrcBackwardSearch", "SrcSampledGet")})
 
 
 # ------------------------------------------------------------------------------------------ theorem modules built here
@@ -868,6 +871,33 @@ EXTRACTORS["C17"] = EXTRACTORS["C17"] + [GEN_SRC["SrcRankSelect"], GEN_SRC["SrcW
 EXTRACTORS["C08"] = EXTRACTORS["C08"] + [GEN_SRC[n] for n in ("SrcShiftAndNext", "SrcKmpNext", "SrcHorspoolNext", "SrcBndmNext", "SrcBomNext")]
 # genpm: C09 — Thm/C09.lean imports RbV.Thm.GenSrcHamming (…) and restates the theorems
 EXTRACTORS["C09"] = EXTRACTORS.get("C09", []) + [GEN_SRC[n] for n in ("SrcHamming",)]
+
+def soft_modules(mods, what):
+    """genfm: `lake build` of shape-dependent equality theorems "translated body = mirror model" that a property-preserving
+    rewrite may falsify (the property-level theorems over the same generated definition are hard obligations of
+    Thm/Cxx.lean).  A failure is a note decided by the behavioural tie (`drift` tags), never a broken obligation."""
+    def run_soft(repo):
+        p = subprocess.run(["lake", "build"] + mods, cwd=LEAN, stdout=subprocess.PIPE, stderr=subprocess.STDOUT,
+                           text=True, timeout=3600)
+        if p.returncode != 0:
+            names = []
+            for mm in re.finditer(r"error: (RbV/[\w/]+\.lean):(\d+):\d+:\s*(.*)", p.stdout):
+                d = "%s (%s:%s)" % (enclosing_decl(mm.group(1), int(mm.group(2))), mm.group(1), mm.group(2))
+                if d not in names:
+                    names.append(d)
+            shape_note("%s: %s" % (what, " | ".join(names[:4]) or "lake build failed"))
+        else:
+            print("gen_tables: %s checked (soft)" % " ".join(mods))
+    run_soft.__name__ = "run_soft_" + "_".join(m.split(".")[-1] for m in mods)
+    return run_soft
+
+
+# genfm: translated bodies of the FM-index chain; Thm/C04.lean and Thm/C05.lean import RbV.Thm.GenSrc* and restate
+SOFT_OCC = soft_modules(["RbV.Thm.GenSrcOccModel"], "the mirror model `occGet` no longer mirrors the text of `Occ::get` "
+                        "branch by branch (the property-level theorem `occ_get_source_exact` is checked separately)")
+EXTRACTORS["C04"] = EXTRACTORS["C04"] + [GEN_SRC["SrcOcc"], SOFT_OCC, GEN_SRC["SrcLess"]]
+EXTRACTORS["C05"] = EXTRACTORS.get("C05", []) + [gen_occ, GEN_SRC["SrcOcc"], GEN_SRC["SrcBackwardSearch"]]
+EXTRACTORS["C03"] = EXTRACTORS["C03"] + [GEN_SRC["SrcSampledGet"], GEN_SRC["SrcOcc"]]
 
 
 def main():
